@@ -1,7 +1,7 @@
 """X02 (beyond the listed properties) - the Formatter callback protocol of the printer.
 
 Specification: spec/Formatter.tla (Events, the protocol's stack machine, Render); spec/extra/X02.tla
-model-checks well-formedness and the refinement Render o Events = RefPrint!Print over the bounded value
+model-checks well-formedness and the refinement Render o Events = RefPrint!PrintDatum over the bounded value
 universe; the values (and seeded random ones) are printed through a logging formatter (harness-extra/vx)
 and the logged callback sequences validated by spec/extra/X02Trace.tla."""
 import os
